@@ -23,8 +23,10 @@ def run(ctx):
     r = ctx.tlc(name, label=f"SPK tree, {len(seg)} segments, all ordered pairs", cfg_text=cfg, extra_files={name + ".tla": mc}, workers=8, dump=True)
     pairs = [{"a": s["a"], "b": s["b"], "plus": sorted(s["plus"]), "minus": sorted(s["minus"])} for s in r.dump]
     n = 1000 if thorough else 10
-    dates = [[2000, 1, 2, 12, 0, 0], [2019, 12, 30, 6, 0, 0], [2010, 3, 4, 5, 6, 7]]
-    while len(dates) < (24 if thorough else 4):
+    # the second and fourth dates are in the last / first minute of their day: the TDB reading (the kernel's argument) falls on
+    # another calendar day than the reading in the date's own scale
+    dates = [[2000, 1, 2, 12, 0, 0], [2003, 3, 9, 23, 59, 30], [2019, 12, 30, 6, 0, 0], [2012, 7, 1, 0, 0, 12], [2010, 3, 4, 5, 6, 7]]
+    while len(dates) < (24 if thorough else 6):
         dates.append([rnd.randint(2000, 2019), rnd.randint(1, 12), rnd.randint(1, 28), rnd.randint(0, 23), rnd.randint(0, 59), rnd.randint(0, 59)])
     payloads = []
     for pck in (True, False):
